@@ -270,7 +270,7 @@ func LiveMPD(a *asset, mpdName string, cfg *ResponseConfig, drmCfg *drm.DrmConfi
 				return nil, fmt.Errorf("adjustASForTimelineTime: %w", err)
 			}
 			if asIdx == 0 {
-				mpd.PublishTime = publishTimeFromS(calcPublishTime(cfg, se.lsi))
+				mpd.PublishTime = publishTimeFromS(math.Max(calcPublishTime(cfg, se.lsi), windowStartChangeTimeS(cfg, se)))
 			}
 		case timeLineNumber:
 			err := adjustAdaptationSetForTimelineNr(se, as)
@@ -282,7 +282,7 @@ func LiveMPD(a *asset, mpdName string, cfg *ResponseConfig, drmCfg *drm.DrmConfi
 				*as.SegmentTemplate.StartNumber += uint32(cfg.getStartNr())
 			}
 			if asIdx == 0 {
-				mpd.PublishTime = publishTimeFromS(calcPublishTime(cfg, se.lsi))
+				mpd.PublishTime = publishTimeFromS(math.Max(calcPublishTime(cfg, se.lsi), windowStartChangeTimeS(cfg, se)))
 			}
 		case segmentNumber:
 			err := adjustAdaptationSetForSegmentNumber(cfg, a, as)
@@ -719,6 +719,17 @@ func calcPublishTime(cfg *ResponseConfig, lsi lastSegInfo) float64 {
 // The instant is rounded up, since the MPD for a millisecond-resolution clock changes at the first millisecond at or after it.
 func publishTimeFromS(seconds float64) m.DateTime {
 	return m.ConvertToDateTimeMS(int64(math.Ceil(seconds*1000 - timeCompareEpsilonS*1000)))
+}
+
+// windowStartChangeTimeS returns the time when the first timeline entry became the first one,
+// i.e. when the previous segment left the timeShiftBuffer. It is 0 if no segment has been dropped yet.
+func windowStartChangeTimeS(cfg *ResponseConfig, se segEntries) float64 {
+	if se.startNr <= 0 || len(se.entries) == 0 || se.entries[0].T == nil || cfg.TimeShiftBufferDepthS == nil {
+		return 0
+	}
+	first := se.entries[0]
+	endS := float64(*first.T+first.D) / float64(se.mediaTimescale)
+	return float64(cfg.StartTimeS) + endS - cfg.AvailabilityTimeOffsetS + float64(*cfg.TimeShiftBufferDepthS)
 }
 
 // lastSegAvailTimeS returns the availabilityTime of the last segment,
